@@ -185,8 +185,13 @@ func (c *Ctx) callKinds(call *ssa.Call) []string {
 
 func (c *Ctx) ruleG1() {
 	sites := c.goSites()
-	c.Counts["G1:go statements"] = len(sites)
-	c.floor("G1", "go statements in non-test code", len(sites), 20)
+	nGo := 0
+	for _, s := range sites {
+		if !c.isControlFn(s.fn) {
+			nGo++
+		}
+	}
+	c.floor("G1", "go statements in non-test code", nGo, 20)
 	ord := map[*ssa.Function]int{}
 	for _, s := range sites {
 		k := ord[s.fn]
